@@ -259,6 +259,53 @@ pub fn run(run: &Run) {
             }
         });
     }
+    // statements written with the four DERIVED copulas (instance, property, instance-property, retrospective
+    // equivalence) - well-formed surface strings no formatter prints: every spacing, both pipelines, against the
+    // documented desugaring
+    for f in fmts::all() {
+        let st = &f.e.statement;
+        let operands = [R::word("a"), R::word("x-y"), R::atom(Tag::IVar, "b1"), R::atom(Tag::Operator, "go"), R::interval(7), R::node(Tag::SetExt, vec![R::word("a")]), R::node(Tag::Product, vec![R::word("a"), R::word("b1")]), R::pair(Tag::Inh, R::word("a"), R::word("b1"))];
+        let se = |x: &R| R::node(Tag::SetExt, vec![x.clone()]);
+        let si = |x: &R| R::node(Tag::SetInt, vec![x.clone()]);
+        let mut cases: Vec<(Vec<String>, R)> = vec![];
+        for s_ in &operands {
+            for p_ in &operands {
+                for (cop, expect) in [
+                    (st.copula_instance, R::pair(Tag::Inh, se(s_), p_.clone())),
+                    (st.copula_property, R::pair(Tag::Inh, s_.clone(), si(p_))),
+                    (st.copula_instance_property, R::pair(Tag::Inh, se(s_), si(p_))),
+                    (st.copula_equivalence_retrospective, R::pair(Tag::EquivPred, p_.clone(), s_.clone())),
+                ] {
+                    let mut toks = vec![st.brackets.0.to_string()];
+                    toks.extend(emit::term_toks(&f, s_));
+                    toks.push(cop.to_string());
+                    toks.extend(emit::term_toks(&f, p_));
+                    toks.push(st.brackets.1.to_string());
+                    cases.push((toks, expect));
+                }
+            }
+        }
+        run.count(&format!("derived_copula_statements_{}", f.name), cases.len() as u64);
+        cases.par_iter().for_each(|(toks, r)| {
+            let v = V::term(r.clone());
+            let expect = v.canon();
+            let mut feats = c01::features(&f, &v);
+            if f.name == "han" && c01::han_name_ends_with_copula_head(r) {
+                feats.push("han-name-ending-in-first-character-of-a-two-character-copula".into());
+            }
+            let mut ss = vec![];
+            spacings(toks, " ", &mut ss);
+            for s in &ss {
+                distinct.add(s);
+                for p in [Pipe::Enum, Pipe::LexFold] {
+                    run.eval(1);
+                    if let Err(msg) = check(&f, p, s, &expect) {
+                        run.violation(&format!("[{}] {}", f.name, msg), json!({"op": "spacing", "format": f.name, "pipeline": format!("{p:?}"), "input": s, "value": v.to_json()}), &feats);
+                    }
+                }
+            }
+        });
+    }
     // medium-size mixed terms (every constructor triple on one path; 4-6 components of different
     // constructors): the two extreme spacings only - no space anywhere, two spaces everywhere
     for f in fmts::all() {
